@@ -421,4 +421,114 @@ def gcCachesOnly (s : Arena) : Arena :=
 
 end Arena
 
+/-! ### standalone `Zdd` (zdd.rs, ops/*.rs): every value owns its table; binary operations clone
+`self.table`, `remap_nodes(other)` into the clone, then run the recursion with a per-call cache -/
+
+/-- `ops/product.rs product_rec` (per-call cache `c`; the inner `ops/common.rs union_refs` calls
+start from an empty cache each) -/
+def productT : Nat → Table → Cache2 → Ref → Ref → Option (Table × Cache2 × Ref)
+  | 0, _, _, _, _ => none
+  | fuel + 1, t, c, a, b =>
+    if a = .E ∨ b = .E then some (t, c, .E)
+    else if a = .B then some (t, c, b)
+    else if b = .B then some (t, c, a)
+    else
+      let (a, b) := norm a b
+      match c.lookup (a, b) with
+      | some r => some (t, c, r)
+      | none => do
+        let (av, alo, ahi) ← nodeInfo t a
+        let (bv, blo, bhi) ← nodeInfo t b
+        let (t, c, r) ← (match av, bv with
+          | some av, some bv =>
+            if av < bv then do
+              let (t, c, nlo) ← productT fuel t c alo b
+              let (t, c, nhi) ← productT fuel t c ahi b
+              let (t, r) := getOrCreate t av nlo nhi
+              pure (t, c, r)
+            else if av > bv then do
+              let (t, c, nlo) ← productT fuel t c a blo
+              let (t, c, nhi) ← productT fuel t c a bhi
+              let (t, r) := getOrCreate t bv nlo nhi
+              pure (t, c, r)
+            else do
+              let (t, c, lolo) ← productT fuel t c alo blo
+              let (t, c, hilo) ← productT fuel t c ahi blo
+              let (t, c, lohi) ← productT fuel t c alo bhi
+              let (t, c, hihi) ← productT fuel t c ahi bhi
+              let (t, _, u1) ← unionA t [] hilo lohi
+              let (t, _, nhi) ← unionA t [] u1 hihi
+              let (t, r) := getOrCreate t av lolo nhi
+              pure (t, c, r)
+          | some _, none => pure (t, c, a)
+          | none, some _ => pure (t, c, b)
+          | none, none => none /- unreachable!() -/)
+        pure (t, ((a, b), r) :: c, r)
+
+/-- `Zdd` (zdd.rs) -/
+structure ZddS where
+  root : Ref
+  table : Table
+  deriving Repr, Inhabited
+
+namespace ZddS
+
+def empty : ZddS := ⟨.E, #[]⟩
+def base : ZddS := ⟨.B, #[]⟩
+
+/-- `Zdd::singleton` -/
+def singleton (var : Nat) : ZddS :=
+  let (t, r) := getOrCreate #[] var .E .B
+  ⟨r, t⟩
+
+/-- `Zdd::from_set` -/
+def fromSet (elements : List Nat) : ZddS :=
+  let (t, r) := fromSortedT #[] (normalize elements)
+  ⟨r, t⟩
+
+/-- `remap_nodes(other, &mut table, &mut node_map)` into a clone of `self.table` -/
+def remapInto (self other : ZddS) : Option (Table × Ref) := do
+  let (t, _, r) ← remapT other.table other.root.rank self.table [] other.root
+  pure (t, r)
+
+/-- `Zdd::union` -/
+def union (self other : ZddS) : Option ZddS := do
+  let (t, oroot) ← remapInto self other
+  let (t, _, r) ← unionA t [] self.root oroot
+  pure ⟨r, t⟩
+
+/-- `Zdd::intersection` -/
+def inter (self other : ZddS) : Option ZddS := do
+  let (t, oroot) ← remapInto self other
+  let (t, _, r) ← interA t [] self.root oroot
+  pure ⟨r, t⟩
+
+/-- `Zdd::difference` -/
+def diff (self other : ZddS) : Option ZddS := do
+  let (t, oroot) ← remapInto self other
+  let (t, _, r) ← diffA t [] self.root oroot
+  pure ⟨r, t⟩
+
+/-- `Zdd::product` -/
+def product (self other : ZddS) : Option ZddS := do
+  let (t, oroot) ← remapInto self other
+  let (t, _, r) ← productT (self.root.rank + oroot.rank + 1) t [] self.root oroot
+  pure ⟨r, t⟩
+
+/-- `Zdd::product_with_optional` (reads nodes through `zdd = self`, whose table is a prefix of the clone) -/
+def pwo (self : ZddS) (var : Nat) : Option ZddS := do
+  let (t, _, _, r) ← pwoT false (self.root.rank + 1) self.table [] [] self.root var
+  pure ⟨r, t⟩
+
+/-- `Zdd::count` (per-call cache) -/
+def count (self : ZddS) : Option Nat := do
+  let (_, k) ← countT (self.root.rank + 1) self.table [] self.root
+  pure k
+
+/-- `Zdd::contains` -/
+def contains (self : ZddS) (q : List Nat) : Option Bool :=
+  containsT (self.root.rank + 1) self.table self.root (normalize q)
+
+end ZddS
+
 end Varpulis.ZddT
